@@ -31,6 +31,12 @@ Theorem C03_concat_order_refuted_for_old_code :
   exists l : list row, map tag (concat_tasks row rid l) <> map tag l.
 Proof. exact old_concat_refuted. Qed.
 
+(** per-tomogram loaders of a batch and loaders derived by replace() carry every loader option (interpolation order, scale,
+    output shape, corner_safe) of the loader they come from (generated call-binding facts) *)
+Theorem C03_options_forwarded : accessor_forwards_options = true /\ accessor_getitem_forwards_options = true /\
+  single_replace_forwards_options = true /\ batch_replace_forwards_options = true.
+Proof. repeat split; reflexivity. Qed.
+
 Print Assumptions C03_rows_aligned.
 Print Assumptions C03_batch_tasks.
 Print Assumptions C03_groups_partition.
